@@ -144,3 +144,48 @@ double pow(double b, double e)
 #else
 uint32_t __vrt_libm_inexact = 0;
 #endif
+
+/* C library entry points that changed code might call instead of std::stoi/stod (same documented contracts).
+   ir2c renames them so that their generated prototypes do not clash with the system headers. */
+static int32_t vrt_errno_cell;
+uint32_t *__vrt_errno_location(void)
+{
+#ifdef __CPROVER__
+    return (uint32_t *)&vrt_errno_cell;
+#else
+    return (uint32_t *)&errno;
+#endif
+}
+uint64_t __vrt_strtol(uint8_t *s, uint8_t **end, uint32_t base)
+{
+#ifdef __CPROVER__
+    /* base 10 only (anything else is outside the model: unconstrained result) */
+    uint64_t i = 0; int neg = 0; uint64_t acc = 0; int over = 0; int digits = 0;
+    if (base != 10) { uint64_t v; return v; }
+    while (i < 64 && is_sp(s[i])) ++i;
+    if (s[i] == '+' || s[i] == '-') { neg = (s[i] == '-'); ++i; }
+    while (i < 64 && is_dg(s[i])) { ++digits; if (acc > 922337203685477580ull || (acc == 922337203685477580ull && (uint64_t)(s[i] - '0') > (neg ? 8u : 7u))) over = 1; else acc = acc * 10 + (uint64_t)(s[i] - '0'); ++i; }
+    if (end) *end = digits ? s + i : s;
+    if (over) { vrt_errno_cell = ERANGE; return neg ? 0x8000000000000000ull : 0x7fffffffffffffffull; }
+    return neg ? (uint64_t)(0 - acc) : acc;
+#else
+    return (uint64_t)strtol((char *)s, (char **)end, (int)base);
+#endif
+}
+uint64_t __vrt_strtoul(uint8_t *s, uint8_t **end, uint32_t base)
+{
+#ifdef __CPROVER__
+    uint64_t v; if (end) *end = s; return v;
+#else
+    return (uint64_t)strtoul((char *)s, (char **)end, (int)base);
+#endif
+}
+double __vrt_strtod(uint8_t *s, uint8_t **end)
+{
+#ifdef __CPROVER__
+    double v = nondet_double(); if (end) *end = s; return v;
+#else
+    return strtod((char *)s, (char **)end);
+#endif
+}
+uint32_t __vrt_atoi(uint8_t *s) { return (uint32_t)__vrt_strtol(s, 0, 10); }
